@@ -103,3 +103,11 @@ Example C08_acceptor_discriminates :
      [OPoll OBJ false (Some (nm 1%N))];
      [OSignal 2000 OBJ SIG_hostnameChanged (PBytes (Some (nm 1%N))); OPoll OBJ true (Some (nm 1%N))]] <> None.
 Proof. vm_compute. repeat split; try discriminate. repeat constructor. Qed.
+
+(* the decisions of hostname.cpp the theorems rest on are regenerated from the source on every run (SrcDecisions.v): the
+   conflict condition and the question filter (hostname_conflict, hostname_question: used by the model directly) and the
+   condition under which a completed registration is announced - the name differs from the one held before the probe: *)
+Theorem C08_announce_decision_read_from_the_source (a b : bytes) (x y : list eff) :
+  (if hostname_announce (Some a) (Some b) then x else y) = (if bytes_eqb a b then y else x).
+Proof. exact (host_announce_old a b x y). Qed.
+Print Assumptions C08_announce_decision_read_from_the_source.
